@@ -28,7 +28,7 @@ def check_case(case):
             if c["n"] == "S":
                 c["a"]["vo"] = 0.0
     else:  # mux without a live input, next to a live shared source
-        spec = mux_spec([tuple(x) for x in case["inputs"]], case["pal"], case["rs_list"], below="deep")
+        spec = mux_spec([tuple(x) for x in case["inputs"]], case["pal"], case["rs_list"], below="deep", mux_pc=case.get("mux_pc"))
     s, obs = phys.solve_and_check(res, spec, WANT)
     if obs is not None and res.stats["dead_rows"] >= 2 and (res.stats["live_rows"] + res.stats["sleep_rows"]) >= 1:
         res.nontrivial = 1
@@ -68,6 +68,12 @@ def gen_cases(tier):
             for inputs in itertools.product(dead, repeat=k):
                 for rs_list in (False, True):
                     yield dict(fam="mux", inputs=[list(x) for x in inputs], pal=pal, rs_list=rs_list)
+        # a SLEEPING multi-input mux: it must draw exactly iis from its selected (first live) input, whichever position that has
+        allopts = dead + [("S", "live"), ("SC", "live"), ("SH", "live")]
+        for k in (2, 3):
+            for inputs in itertools.product(allopts if k == 2 else allopts[::2], repeat=k):
+                for mpc in (["a"], ["b"]):
+                    yield dict(fam="mux", inputs=[list(x) for x in inputs], pal=pal, rs_list=True, mux_pc=mpc)
 
 
 def replay(doc):
@@ -84,6 +90,6 @@ def main(tier):
     return run.finish(
         rule="E1: every tree of the mid alphabet n<=3 (4 thorough) and every chain of the deep alphabet to depth 5 (6) with (a) the source at 0 V, "
              "(b) each source/converter/regulator/switch/mux position in turn active in one phase only, (c) a dead source beside a live one, "
-             "(d) a PMux all of whose 1..3 inputs are dead for each cause. Oracle: exact zeros in every row whose Vin is 0, Iin==iis and P==L==iis*|Vin|, Vout==0 "
+             "(d) a PMux all of whose 1..3 inputs are dead for each cause, and 2-/3-input muxes that themselves sleep in one phase over every live/dead input pattern. Oracle: exact zeros in every row whose Vin is 0, Iin==iis and P==L==iis*|Vin|, Vout==0 "
              "for the inactive element, C01 row laws for all remaining rows. non-trivial = >=2 dead rows and >=1 live or sleeping row in the same table.",
         assumptions=["one dead cause at a time (combinations are covered by C05/C06)", "palettes", "node bounds"])
